@@ -107,14 +107,14 @@ theorem known_of_mem (r : Row) (hm : r ∈ Gen.Vinegar.builtinExcTable) : Known 
   · simp [tableEnv, rowKind, findRow_of_mem r hm]
 
 theorem sentAttrs_origin (ds : List DirEntry) : ∀ p ∈ sentAttrs ds,
-    ∃ d ∈ ds, ∃ o, d.value = some o ∧ p = (d.name, sendable o) := by
+    ∃ d ∈ ds, ∃ o, d.value = some o ∧ p = (d.name, sendable o) ∧ dropped d = false := by
   induction ds with
   | nil => intro p hp; cases hp
   | cons x xs ih =>
     intro p hp
     simp only [sentAttrs] at hp
-    have lift : (∃ d ∈ xs, ∃ o, d.value = some o ∧ p = (d.name, sendable o)) →
-        ∃ d ∈ x :: xs, ∃ o, d.value = some o ∧ p = (d.name, sendable o) :=
+    have lift : (∃ d ∈ xs, ∃ o, d.value = some o ∧ p = (d.name, sendable o) ∧ dropped d = false) →
+        ∃ d ∈ x :: xs, ∃ o, d.value = some o ∧ p = (d.name, sendable o) ∧ dropped d = false :=
       fun ⟨d, hd, h⟩ => ⟨d, List.mem_cons_of_mem _ hd, h⟩
     split at hp
     · exact lift (ih p hp)
@@ -124,7 +124,11 @@ theorem sentAttrs_origin (ds : List DirEntry) : ∀ p ∈ sentAttrs ds,
         · exact lift (ih p hp)
         · rename_i o hv
           rcases List.mem_cons.mp hp with rfl | hp'
-          · exact ⟨x, by simp, o, hv, rfl⟩
+          · have hdrop : dropped x = false := by
+              cases hc : dropped x
+              · rfl
+              · simp_all
+            exact ⟨x, by simp, o, hv, rfl, hdrop⟩
           · exact lift (ih p hp')
 
 theorem writable_of_recOf (r : Row) (e : ExcRec) (hm : r ∈ Gen.Vinegar.builtinExcTable) (he : RecOf r e) :
@@ -134,7 +138,7 @@ theorem writable_of_recOf (r : Row) (e : ExcRec) (hm : r ∈ Gen.Vinegar.builtin
   have hname : e.cls.name = r.1 := by rw [hcls]
   constructor
   · intro p hp
-    obtain ⟨d, hd, o, hv, rfl⟩ := sentAttrs_origin e.dir p hp
+    obtain ⟨d, hd, o, hv, rfl, _⟩ := sentAttrs_origin e.dir p hp
     simp only [tableEnv, hmod, hname, isBuiltinsName_builtins, ↓reduceIte, rowSetattr, findRow_of_mem r hm]
     cases hfa : findAttr r d.name with
     | none => rfl
